@@ -478,6 +478,16 @@ class World:
         if valty.startswith("opaque:"):
             f = z3.Function("dict_val_" + name, kz.sort(), U)
             return VOpaque(valty[7:], f(kz))
+        if valty.startswith("obj:"):
+            cache = getattr(d, "_objcache", None)
+            if cache is None:
+                cache = d._objcache = {}
+            k = kz.sexpr()
+            if k not in cache:
+                o = VObj(valty[4:], name="%s[%s]" % (name, k[:30]))
+                o.fieldty = dict(self.field_types(valty[4:]))
+                cache[k] = o
+            return cache[k]
         if valty == "list[str]":
             # non-empty list of strings per key (parse_qs)
             ln = z3.Function("dict_val_len_" + name, kz.sort(), z3.IntSort())(kz)
@@ -1059,6 +1069,12 @@ class World:
                     eng.oblige("%s.raises-only-declared" % label, False, kind="raises", site=raised.site, note="%s escapes (raised at line %s); declared: %s" % (exc.cls, raised.site, sorted(c.raises)))
 
         eng.run_all(body)
+        if not canary:
+            for key in c.opts.get("must_hit", ()):
+                if key not in eng.at_hits:
+                    from .engine import VC
+                    nm = "%s.at-reached[%s]" % (label, key[6:][:50])
+                    eng.vcs[(nm, (), 0)] = VC(nm, [], z3.BoolVal(False), "assert", None, (), "the statement %r is no longer executed on any path" % key[6:])
         return eng
 
 
@@ -1122,12 +1138,15 @@ def snapshot(x, memo=None):
             memo[id(x)] = o
             o.items = [snapshot(v, memo) for v in x.items]
             o.elemty = x.elemty
+            o.ident = getattr(x, "ident", x)
             return o
         o = VList(None, x.n, x.get, x.elemty)
+        o.ident = getattr(x, "ident", x)
         memo[id(x)] = o
         return o
     if isinstance(x, VDict):
         o = VDict({}, sym=x.sym, valty=x.valty)
+        o.ident = getattr(x, "ident", x)
         memo[id(x)] = o
         o.items = {k: snapshot(v, memo) for k, v in x.items.items()}
         o.overrides = [(k, snapshot(v, memo)) for k, v in x.overrides]
